@@ -21,9 +21,7 @@ impl<T> WeakPtr<T> {
 #[verifier::external_body] pub struct Span { _p: () }
 #[verifier::external_body] pub struct Attribute { _p: () }
 #[verifier::external_body] pub struct DocComment { _p: () }
-#[verifier::external_body] #[verifier::reject_recursive_types(T)] pub struct Integer<T> { _p: core::marker::PhantomData<T> }
 #[verifier::external_body] pub struct EnumeratorValue { _p: () }
-#[verifier::external_body] pub struct Primitive { _p: () }
 #[verifier::external_body] pub struct OpaqueContainer { _p: () }
 // R9: `dyn Type` (the default pointee of TypeRef) -- this Verus' trait-conflict checker rejects
 // `dyn Type: Element`; the pointee is never dereferenced by a function under contract.
@@ -34,14 +32,12 @@ impl Element for OpaqueDynType {}
 pub trait Element {}
 pub trait Type: Element {}
 impl Element for Interface {}
-impl Element for Primitive {}
 impl Element for Struct {}
 impl Element for Enum {}
 impl Element for CustomType {}
 impl Element for ResultType {}
 impl Element for Sequence {}
 impl Element for Dictionary {}
-impl Type for Primitive {}
 impl Type for Struct {}
 impl Type for Enum {}
 impl Type for CustomType {}
